@@ -360,7 +360,8 @@ def report(prop, tier, seed, results, wall, pm):
             "obligations": obligations, "discharged": discharged,
             "checker_cmd": " && ".join(checker_cmds) or "verus <unit>.rs",
             "trusted_base": sorted(trusted) + ["rewrite %s: %d site(s)" % (k, v) for k, v in sorted(rewrites.items())]
-            + ["machine integers are machine integers: Verus checks every arithmetic operation for overflow"],
+            + ["machine integers are machine integers: Verus checks every arithmetic operation for overflow",
+               "unsafe code: none in /repo/src (#![forbid(unsafe_code)] in src/lib.rs); the dependencies are outside the proofs (assumed contracts)"],
             "samples": samples,
             "functions_under_contract": fn_rows,
             "backend": "Verus 0.2026.09.13 / Z3 (bit_vector queries: Z3 bit-vector theory)",
